@@ -61,6 +61,38 @@ func canonDecoded(oid int, v interface{}) string {
 	return core.CanonVal(v)
 }
 
+// arrays of geometric types: every element is a %g text
+var geometricArray = map[int]bool{1017: true, 1018: true, 1019: true, 1020: true, 1027: true, 629: true, 719: true}
+
+// canonDeep: like canonDecoded, and element-wise for arrays of geometric types (family sc_closed)
+func canonDeep(oid int, v interface{}) string {
+	// decodeArray's `return nil` is a nil []interface{}: the models' `.nil` (as in harness/cmd/arrays: canonArr)
+	if a, ok := v.([]interface{}); ok && a == nil {
+		return "~"
+	}
+	if arr, ok := v.([]interface{}); ok && geometricArray[oid] {
+		parts := make([]string, len(arr))
+		for i, e := range arr {
+			if s, isStr := e.(string); isStr {
+				parts[i] = canonFStr(s)
+			} else {
+				parts[i] = core.CanonVal(e)
+			}
+		}
+		return "[" + strings.Join(parts, ",") + "]"
+	}
+	return canonDecoded(oid, v)
+}
+
+func decodePairsDeep(args []string) string {
+	outs := make([]string, 0, len(args)/2)
+	for i := 0; i+1 < len(args); i += 2 {
+		oid := core.Atoi(args[i])
+		outs = append(outs, canonDeep(oid, pgdump.DecodeType(core.Unhex(args[i+1]), oid)))
+	}
+	return strings.Join(outs, ";")
+}
+
 func decodePairs(args []string) string {
 	outs := make([]string, 0, len(args)/2)
 	for i := 0; i+1 < len(args); i += 2 {
@@ -84,6 +116,8 @@ func init() {
 	for _, fam := range []string{"sc_ints", "sc_floats", "sc_text", "sc_time", "sc_days", "sc_ids", "sc_bits", "sc_geo", "sc_range", "sc_raw"} {
 		core.Register(fam, decodePairs)
 	}
+	// the closed model of DecodeType (arrays with real element decoders, numeric, jsonb) against the real function
+	core.Register("sc_closed", decodePairsDeep)
 	core.Register("sc_malformed", func(args []string) string {
 		outs := make([]string, 0, len(args)/2)
 		for i := 0; i+1 < len(args); i += 2 {
